@@ -29,6 +29,7 @@ func init() {
 		Real:           []string{"client energy file reader, history store, send loop, sync round incl. resend loop", "server sync handler"},
 		Stub:           []string{"meter firmware (harness edits energy_data.csv)", "UDP (sink: every datagram captured and dropped)"},
 		RequiredProbes: []string{"c09.rewrite-refused", "c09.retransmission", "c09.restart", "c09.truncate-then-write", "c09.store.before-origin", "c09.store.far", "c09.store.wrap", "c09.store.different-refused"},
+		RequiredSites:  []string{"send.wake", "csync.resend"},
 	})
 }
 
@@ -205,6 +206,7 @@ func runC09(m *Sim) {
 		w.PumpUDP()
 	}
 	checkStored("final")
+	m.NoteState(len(stored), len(cap.first), len(wideSlots))
 	refused := 0
 	for s, f := range cap.first {
 		r, _ := DecodeReport(f)
